@@ -239,3 +239,9 @@ CASES += [
     {"name": "outer product with the conjugate on the bra", "kind": "twin", "edits": [
         (_SV, _KB, "        psi = self.data\n        rho.data[:,:] = numpy.outer(psi, numpy.conj(psi))\n", 1)]},
 ]
+
+_RDT = "quantarhei/qm/liouvillespace/redfieldtensor.py"
+CASES += [
+    {"name": "tensor form computed from the raw operator storage (seeded change of round 8)", "kind": "mutant", "rule": "C02-S", "edits": [
+        (_RDT, "            RR = self._convert_operators_2_tensor(self.Km, self.Lm, self.Ld)", "            RR = self._convert_operators_2_tensor(self._Km, self._Lm, self._Ld)", 1)]},
+]
